@@ -119,8 +119,33 @@ def run(tier, seed):
     scs = []
     names = [':enabled', ':disabled', ':required', ':optional', ':read-write', ':read-only', ':in-range', ':out-of-range', ':link',
              ':any-link', ':checked', ':default', ':indeterminate', ':placeholder-shown', ':dir(ltr)', ':dir(rtl)', ':root']
-    for profile in ('forms', 'forms', 'langdir'):
-        for sc in campaign.build(rnd, profile, n // 3 + 1, 0, modes=['api', 'html.parser', 'lxml', 'html5lib']):   # HTML documents only
+    def range_docs(k):
+        # inputs of the range types with structured min / max / value, years beyond 9999 included (valid HTML date strings)
+        from props import C18 as _C18
+        import e1 as _e1, gen_trees as _gt
+        out = []
+        for _ in range(k):
+            inputs = []
+            for _j in range(8):
+                t_ = rnd.choice(['date', 'month', 'datetime-local', 'date', 'time', 'number', 'week'])
+                def val():
+                    if t_ in ('date', 'month', 'datetime-local') and rnd.random() < 0.5:
+                        y_ = rnd.choice([9999, 10000, 10001, 12345, 99999, 100000])
+                        return {'date': f'{y_}-{rnd.choice(["01-01", "12-31", "02-29", "06-15"])}', 'month': f'{y_}-{rnd.choice(["01", "12", "13"])}',
+                                'datetime-local': f'{y_}-01-01T{rnd.choice(["00:00", "23:59"])}'}[t_]
+                    v_ = _C18.gen_value(rnd, t_)
+                    return v_ if not (t_ == 'week' and not v_[:4].isdigit()) else '2020-W10'
+                a_ = {'type': t_}
+                for nm_ in rnd.sample(['min', 'max', 'value'], rnd.choice([2, 3])):
+                    a_[nm_] = val()
+                if t_ == 'week':
+                    a_ = {k_: (v_ if k_ == 'type' or (v_[:4].isdigit() and 1000 <= int(v_[:4]) <= 9999 and v_[4:6] == '-W') else '2021-W05') for k_, v_ in a_.items()}
+                inputs.append(('e', 'input', a_, []))
+            ab_ = ('e', 'html', {}, [('e', 'head', {}, []), ('e', 'body', {}, [('e', 'form', {}, inputs)])])
+            out.append(_e1.Scenario(_gt.build_api([ab_]) if rnd.random() < 0.5 else _gt.parse_with(_gt.to_markup(ab_), 'html.parser'), 'forms/range-directed'))
+        return out
+    for pi_, profile in enumerate(('forms', 'forms', 'langdir')):
+        for sc in campaign.build(rnd, profile, n // 3 + 1, 0, modes=['api', 'html.parser', 'lxml', 'html5lib']) + (range_docs(n // 8) if pi_ == 0 else []):   # HTML documents only
             top = sc.top
             D = selspec.Doc(top)
             if not D.is_html or not D.is_docobj:
